@@ -68,9 +68,11 @@ func init() {
 			"well-formed inputs as in the property: entropies in [0,8], tolerances >= 0 (not NaN), threshold in (0,1], block/loop/node counts in [-4, 2^20]",
 			"assume-guarantee: MatchSignature is checked with ComputeTopologySimilarity replaced by its contract (a number in [0,1], discharged by VerifC08_TopoSimilarity) and the topology hash by a constant; the back-end harness uses MatchSignature's contract (NaN or [0,1]; 0 when a call is missing), discharged by VerifC08_MatchSignature",
 			"call-signature keys: <=2 keys of 2 bytes; required calls <=2 of 1 byte; one 2-byte string literal and <=1 one-byte pattern; ASCII",
-			"both back ends: <=2 (thorough 3) signatures with positive tolerance indexed under the scanned topology's hash; the embedded back end runs on the Pebble contract model",
+			"JSON back end: <=2 (thorough 3) signatures, embedded back end: 2 signatures (both tiers; 3 did not finish in 20 minutes), indexed under the scanned topology's hash; the embedded back end runs on the Pebble contract model",
 			"IEEE-754 binary64, round-to-nearest-even, SMT FloatingPoint theory (cvc5)")
-		pcfg := &HarnessCfg{Name: "VerifC08_PebbleAlerts", Pkg: pebPkg, Solver: "cvc5", TimeoutMs: to, Params: map[string]int64{"sigs": sigs}, MaxPaths: 400000}
+		// the embedded back end stays at 2 signatures in both tiers: with 3, the case splits of the ordered
+		// index walk times those of the descending sort over symbolic doubles did not finish in 20 minutes
+		pcfg := &HarnessCfg{Name: "VerifC08_PebbleAlerts", Pkg: pebPkg, Solver: "cvc5", TimeoutMs: to, Params: map[string]int64{"sigs": 2}, MaxPaths: 400000}
 		c.runModeT([]string{"pkg/detection", "pkg/storage/jsondb", "pkg/storage/pebbledb"}, append(cfgs, jcfg, pcfg))
 	}
 }
